@@ -92,7 +92,8 @@ type MisuseCase struct {
 
 // misuseWraps: the misuse sits somewhere inside a larger formula; its error still is the outcome (an element, argument
 // or operand that failed is not replaced by null, and nothing that follows it hides the failure).
-var misuseWraps = []string{"%s", "[(%s), 1]", "[1, (%s), 'x']", "fanys((%s), 1)", "fanys(1, (%s), 2)", "fcat((%s), 'b')", "((%s), 1)", "(%s) + 1", "1 + (%s)", "true ? (%s) : 0", "$v = (%s)", "[[(%s)], 2]", "fid([(%s), 1])", "max((%s), 1, 2)", "typeof (%s), 1"}
+var misuseWraps = []string{"%s", "[(%s), 1]", "[1, (%s), 'x']", "fanys((%s), 1)", "fanys(1, (%s), 2)", "fcat((%s), 'b')", "((%s), 1)", "(%s) + 1", "1 + (%s)", "true ? (%s) : 0", "$v = (%s)", "[[(%s)], 2]", "fid([(%s), 1])", "max((%s), 1, 2)", "typeof (%s), 1",
+	"(%s).k", "(%s) ? 1 : 2", "fanys([(%s), 2]...)", "!(%s)", "-(%s)", "(%s) == 1", "(%s) && 1", "0 || (%s)", "1 && (%s)", "null ?? (%s)", "(%s) ?? 1", "[1, [2, [(%s)]], 3]", "fid(fid(fid((%s))))", "$v = 1, (%s), $v"}
 
 var c03Misuse = core.Mon(c03, "misuse-is-error", func(w *core.W, c *MisuseCase) {
 	out := evaluate(c.Src, c.Data, nil)
@@ -272,7 +273,7 @@ func runC03(w *core.W) {
 	}
 	// 6. misuse must be an error
 	r = w.RNG("misuse")
-	for rep, nrep := 0, w.Pick(3, 20); rep < nrep; rep++ {
+	for rep, nrep := 0, w.Pick(10, 30); rep < nrep; rep++ {
 		d := StdData(r)
 		for i, t := range misuseTemplates {
 			if !w.Mine(i + rep) {
